@@ -12,14 +12,17 @@ Hypothesis tpos : 0 < tstep.
 Let x' := vmc_newcoorde tstep x gauss (D x).
 Let drift := fun a => vscal tstep (D a).
 
-(* the noise of the forward move and of the reverse move *)
-Lemma vmc_forward_is_forward_noise : vmc_forward gauss = norm2 (vsub (vsub x' x) (drift x)).
-Proof. subst x' drift. unfold vmc_forward, vmc_newcoorde. rewrite norm2_expand. unfold norm2, vsum, vpow, vsub, vadd, vscal; cbn. ring. Qed.
+(* The proofs of this section do not depend on how the source spells its expressions (1/(2 tstep) * (f - b) or (f - b)/(2 tstep), named
+   temporaries or not): the generated definitions are unfolded to the coordinates and compared as rational functions. *)
+Ltac vec_field := unfold lnT, norm2, vsum, vpow, vsub, vadd, vscal; cbn [vx vy vz]; field.
 
-Lemma vmc_backward_is_reverse_noise : vmc_backward tstep gauss (D x) (D x') = norm2 (vsub (vsub x x') (drift x')).
+(* the argument of the exponential in the acceptance ratio is ln T(x'->x) - ln T(x->x') for the Gaussian of variance tstep about the
+   drifted position (so: the squared noise of the reverse move minus that of the forward move, over 2 tstep) *)
+Lemma vmc_lnT_arg_is_log_density_ratio :
+  vmc_lnT_arg tstep gauss (D x) (D x') = lnT tstep drift x' x - lnT tstep drift x x'.
 Proof.
-  subst drift. cbv beta. set (d := D x'). subst x'. unfold vmc_backward, vmc_newcoorde. rewrite norm2_expand.
-  unfold norm2, vsum, vpow, vsub, vadd, vscal; cbn. ring.
+  subst drift. unfold lnT. cbv beta. set (d := D x'). subst x'. set (d0 := D x) in *. clearbody d d0.
+  unfold vmc_lnT_arg, vmc_newcoorde. vec_field. lra.
 Qed.
 
 (* the proposal that is drawn has variance tstep *)
@@ -38,17 +41,21 @@ Proof.
   2:{ field; repeat split; try (apply Rgt_not_eq, exp_pos); try exact Hs. }
   assert (E : exp (lnT tstep drift x' x) / exp (lnT tstep drift x x') = exp (lnT tstep drift x' x - lnT tstep drift x x')).
   { unfold Rminus. rewrite exp_plus, exp_Ropp. reflexivity. }
-  rewrite E. clear E.
-  unfold lnT. rewrite <- vmc_forward_is_forward_noise, <- vmc_backward_is_reverse_noise.
-  unfold vmc_t_prob. fold (vmc_forward gauss). fold (vmc_backward tstep gauss (D x) (D x')). f_equal. field. lra.
+  rewrite E. clear E. rewrite <- vmc_lnT_arg_is_log_density_ratio. reflexivity.
 Qed.
+
+(* the quantity the uniform number is compared with is |Psi'/Psi|^2 t_prob *)
+Lemma vmc_ratio_shape v dx dn : vmc_ratio tstep v gauss dx dn = Rabs v ^ 2 * vmc_t_prob tstep gauss dx dn.
+Proof. unfold vmc_ratio, vmc_t_prob. ring. Qed.
+Lemma vmc_accept_shape v dx dn : vmc_accept tstep u v gauss dx dn <-> u < vmc_ratio tstep v gauss dx dn.
+Proof. unfold vmc_accept, vmc_ratio. split; intro H; exact H. Qed.
 
 (* acceptance test == u < min(1, |Psi'|^2 T(x'->x) / (|Psi|^2 T(x->x'))) for every u in [0,1) *)
 Theorem vmc_accept_is_metropolis_hastings : 0 <= u < 1 ->
   (vmc_accept tstep u (absr x x') gauss (D x) (D x') <->
    u < mh_prob (Rabs (absr x x') ^ 2) (Tdens tstep drift x' x / Tdens tstep drift x x')).
 Proof.
-  intros Hu. unfold vmc_accept, mh_prob. fold (vmc_t_prob tstep gauss (D x) (D x')). rewrite vmc_tprob_is_density_ratio.
+  intros Hu. rewrite vmc_accept_shape, vmc_ratio_shape, vmc_tprob_is_density_ratio. unfold mh_prob.
   set (q := Rabs (absr x x') ^ 2 * (Tdens tstep drift x' x / Tdens tstep drift x x')).
   unfold Rmin. destruct (Rle_dec 1 q); split; intro; lra.
 Qed.
